@@ -1179,6 +1179,65 @@ def gen_policy(repo):
     out.append("end LLFree.Gen.P")
     return "\n".join(out) + "\n"
 
+def block_after(src, marker, start=0):
+    """the balanced `{ … }` block that follows `marker` (first occurrence after `start`)"""
+    a = src.find(marker, start)
+    if a < 0: raise TranslateError(f"marker {marker!r} not found")
+    b = src.index('{', a + len(marker) - 1)
+    depth = 0; k = b
+    while True:
+        c = src[k]
+        if c == '{': depth += 1
+        elif c == '}':
+            depth -= 1
+            if depth == 0: return src[b:k + 1]
+        k += 1
+
+def gen_toggle(repo):
+    """`Bitfield::toggle`, arm `0..=2` (updates within one row): the mask and the update closure;
+    `Bitfield::is_zero`: the single-row mask test"""
+    src = read(os.path.join(repo, 'core/src/bitfield.rs'))
+    params, body = extract_fn(src, 'toggle')
+    if re.sub(r"\s+", "", params) != "&self,i:FrameId,order:usize,expected:bool":
+        raise TranslateError(f"toggle: unexpected signature ({params})")
+    if not re.search(r"let\s+num_bits\s*=\s*1\s*<<\s*order\s*;", body): raise TranslateError("toggle: expected `let num_bits = 1 << order;`")
+    if not re.search(r"match\s+order\s*\{\s*0\.\.=2\s*=>\s*\{", body): raise TranslateError("toggle: first arm is not `0..=2 => {`")
+    blk = P(tokenize_str(block_after(body, '0..=2 => {'))).block()
+    if len(blk[1]) != 1 or blk[1][0][0] != 'let' or blk[1][0][1] != ('pvar', 'mask'):
+        raise TranslateError("toggle: arm 0..=2 does not start with `let mask = ..;`")
+    em = Emit('bv', paths={'Self::ROW_BITS': '64#64', 'u64::MAX': '(BitVec.allOnes 64)', 'num_bits': 'numBits'},
+              methods={'row_bit_idx': lambda R, a: 'bit'})
+    mask = em.ex(blk[1][0][2])
+    tail = blk[2]
+    if tail is None or tail[0] != 'match' or tail[1][0] != 'mcall' or tail[1][2] != 'try_update':
+        raise TranslateError("toggle: arm 0..=2 is not `match self.row(..).try_update(|e| ..) {..}`")
+    clo = tail[1][3][0]
+    if clo[0] != 'closure' or clo[1] != [('pvar', 'e')]: raise TranslateError("toggle: closure")
+    upd = em.ex(clo[2])
+    # is_zero: the branch for at most one row
+    params, body = extract_fn(src, 'is_zero')
+    if not re.search(r"let\s+num_bits\s*=\s*1\s*<<\s*order\s*;", body): raise TranslateError("is_zero: expected `let num_bits = 1 << order;`")
+    if not re.search(r"if\s+num_bits\s*>\s*Self::ROW_BITS\s*\{", body): raise TranslateError("is_zero: expected `if num_bits > Self::ROW_BITS {`")
+    first = block_after(body, 'if num_bits > Self::ROW_BITS {')
+    eb = P(tokenize_str(block_after(body, 'else {', body.index(first) + len(first) - 1))).block()
+    names = [s[1] for s in eb[1] if s[0] == 'let']
+    if names != [('pvar', 'row'), ('pvar', 'mask')]: raise TranslateError(f"is_zero: else branch lets {names}")
+    em2 = Emit('bv', paths={'u64::BITS': '64#64', 'u64::MAX': '(BitVec.allOnes 64)', 'num_bits': 'numBits'},
+               methods={'row_bit_idx': lambda R, a: 'bit'})
+    zmask = em2.ex(eb[1][1][2]); ztest = em2.ex(eb[2])
+    out = ["/- GENERATED by tools/rs2lean.py from core/src/bitfield.rs (`Bitfield::toggle` arm 0..=2, `Bitfield::is_zero`) — do not edit. -/",
+           "namespace LLFree.Gen.B", "",
+           "/-- `toggle`, arm `0..=2`: `let mask = …` (`num_bits = 1 << order`, `bit = i.row_bit_idx()`) -/",
+           f"def toggleMask (numBits bit : BitVec 64) : BitVec 64 :=\n  {mask}\n",
+           "/-- `toggle`, arm `0..=2`: the closure given to `try_update` -/",
+           f"def toggleSmall (e mask : BitVec 64) (expected : Bool) : Option (BitVec 64) :=\n  {upd}\n",
+           "/-- `is_zero`, at most one row: `let mask = …` -/",
+           f"def isZeroMask (numBits bit : BitVec 64) : BitVec 64 :=\n  {zmask}\n",
+           "/-- `is_zero`, at most one row: the test -/",
+           f"def isZeroRow (row mask : BitVec 64) : Bool :=\n  {ztest}\n",
+           "end LLFree.Gen.B"]
+    return "\n".join(out) + "\n"
+
 def gen_huge(repo):
     """`impl HugeEntry` (lower.rs): a u16 counter with `u16::MAX` as the marker of a huge allocation"""
     src = read(repo + '/core/src/lower.rs')
@@ -1217,7 +1276,7 @@ def gen_huge(repo):
     out.append("end LLFree.Gen.H")
     return "\n".join(out) + "\n"
 
-GENERATORS = {'Consts': gen_consts, 'Fza': gen_fza, 'Leaf': gen_leaf, 'Tree': gen_tree, 'Local': gen_local, 'Huge': gen_huge, 'Policy': gen_policy}
+GENERATORS = {'Consts': gen_consts, 'Fza': gen_fza, 'Leaf': gen_leaf, 'Tree': gen_tree, 'Local': gen_local, 'Huge': gen_huge, 'Policy': gen_policy, 'Toggle': gen_toggle}
 
 def write_if_changed(path, txt):
     if os.path.exists(path) and read(path) == txt: return False
